@@ -740,7 +740,7 @@ pub fn gen_output_case(r: &mut Rng, thorough: bool) -> Case {
             case.spec.lines[i].values_mut().iter_mut().for_each(|x| *x = -*x);
         }
         1 => {
-            let c = *r.pick(&[1e3f32, 1e6, 1e9]);
+            let c = *r.pick(&[1e3f32, 1e6, 1e9, 1e12, 1e13]);
             case.spec = case.spec.scaled(c);
         }
         _ => {}
